@@ -796,3 +796,81 @@ func init() {
 		},
 	})
 }
+
+// C05Judge runs one input through every decoder of the family and returns the violations observed
+// (panics outside the known third-party class, allocation above A(n)+slack, WKB instability).
+// It is the same judgement as c05run without the harness context; used by the coverage-guided
+// fuzz targets (fuzz/) and by `vmon -judge-family`.
+func C05Judge(family string, in []byte, allocSlack uint64) []string {
+	var out []string
+	for i := range c05decs {
+		d := &c05decs[i]
+		if d.family != family {
+			continue
+		}
+		cp := append([]byte{}, in...)
+		n := len(in)
+		if d.name == "mvt.UnmarshalGzipped" {
+			n += gunzipLen(in)
+		}
+		var val interface{}
+		var err error
+		a0 := allocBytes()
+		pv, st := h.Catch(func() { val, err = d.f(cp) })
+		used := allocBytes() - a0
+		if pv != nil {
+			if family == "bson" {
+				fr := h.InnermostFrame(st)
+				msg := fmt.Sprint(pv)
+				if strings.HasPrefix(fr, "go.mongodb.org/mongo-driver/") && (strings.Contains(msg, "index out of range") || strings.Contains(msg, "slice bounds out of range")) {
+					continue // known finding C05/bson-driver-panic
+				}
+			}
+			out = append(out, fmt.Sprintf("%s panicked: %v\n%s", d.name, pv, st))
+			continue
+		}
+		if limit := uint64(4<<20) + 4096*uint64(n) + allocSlack; used > limit {
+			out = append(out, fmt.Sprintf("%s allocated %d bytes for %d input bytes (limit %d)", d.name, used, n, limit))
+			continue
+		}
+		if g, ok := val.(orb.Geometry); ok && err == nil && family == "wkb" {
+			var g2 orb.Geometry
+			var e2 error
+			pv, st := h.Catch(func() {
+				data, e := wkb.Marshal(g)
+				e2 = e
+				if e == nil && data != nil {
+					g2, e2 = wkb.Unmarshal(data)
+				}
+			})
+			if pv != nil {
+				out = append(out, fmt.Sprintf("%s: re-encoding the decoded value panicked: %v\n%s", d.name, pv, st))
+			} else if e2 != nil || !(refmodel.EqualBits(refmodel.Norm(g), g2) || (g2 == nil && refmodel.NumVertices(g) == 0 && isNilSliceOrNil(g))) {
+				out = append(out, fmt.Sprintf("%s: decode(encode(decode(x))) differs from decode(x): %v vs %v (%v)", d.name, g, g2, e2))
+			}
+		}
+	}
+	return out
+}
+
+// C05Seeds returns valid encodings per family to seed the fuzzers.
+func C05Seeds(seed uint64) map[string][][]byte {
+	r := h.NewRand(seed)
+	out := map[string][][]byte{}
+	for i := 0; i < 24; i++ {
+		w, t, j, b, m, z := c05validEncodings(r)
+		out["wkb"] = append(out["wkb"], w)
+		out["wkt"] = append(out["wkt"], t)
+		out["json"] = append(out["json"], j)
+		out["bson"] = append(out["bson"], b)
+		out["mvt"] = append(out["mvt"], m, z)
+		if i < 8 {
+			ht, _ := c05hostileTile(r)
+			out["mvt"] = append(out["mvt"], ht)
+		}
+	}
+	for _, w := range c05witnesses() {
+		out[w.family] = append(out[w.family], w.in)
+	}
+	return out
+}
